@@ -185,11 +185,11 @@ crd write conv --command cmt`,
 			}
 		}
 
-		wArgs, err := newWriteCmdArgsFromInputInstances(cmd, instances)
-		if err != nil {
+		// validate like write does, but print the input form: that is what write reads
+		if _, err := newWriteCmdArgsFromInputInstances(cmd, instances); err != nil {
 			return err
 		}
-		return writeYamlOutput(cmd, wArgs.instances)
+		return writeYamlOutput(cmd, instances)
 	},
 }
 
